@@ -26,6 +26,8 @@ EXPLANATION = (
 CLOCKS = {'time.time', 'time.perf_counter', 'time.monotonic', 'time.process_time', 'time.perf_counter_ns',
           'time.time_ns', 'time.monotonic_ns', 'timeit.default_timer'}
 
+NOT_DECIDED = 'wall-clock values'
+
 
 def _table_names(ctx: Ctx) -> set[str]:
     mod = ctx.prog.modules.get('kfac.tracing')
